@@ -45,7 +45,8 @@ LEVEL_TEXT = ("Proof (Coq, no axioms) about the model of ACEProcess.interact: fo
               "delphin/ace.py by kernel-checked correspondence against a scripted stand-in processor under both "
               "race outcomes; result extraction, absence of exceptions and hangs, and run bookkeeping are checked "
               "on the real classes by the oracle.")
-LEVEL_NOTE = ("Partial: the operating system (pipes, exit detection) is not modelled. One defect (no restart after a failure in the default protocol and in the "
+LEVEL_NOTE = ("Partial: the operating system (pipes, exit detection) is not modelled. Two defects were repaired by "
+              "fix: commits: F30 (AssertionError on an answer cut on a structural boundary) and one defect (no restart after a failure in the default protocol and in the "
               "generator) was repaired by a fix: commit.")
 TECHNIQUE = "Coq proof (alignment invariant of the reader/interaction state machine) + kernel-checked correspondence against a scripted stand-in + oracle"
 DESIGN_REF = "DESIGN.md section 6, C19"
@@ -79,7 +80,11 @@ def gen(rng, tier):
             elif k < 0.7:
                 behaviours.append({"b": "exit_before", "d": rng.choice([0, 0.2])})
             elif k < 0.85:
-                behaviours.append({"b": "exit_mid", "cut": rng.choice([0.1, 0.3, 0.5, 0.7, 0.95])})
+                if rng.random() < 0.35:
+                    # a cut on a structural boundary of the answer (just before one of its last parentheses)
+                    behaviours.append({"b": "exit_mid", "paren": rng.choice([1, 2, 2, 3, 4])})
+                else:
+                    behaviours.append({"b": "exit_mid", "cut": rng.choice([0.1, 0.3, 0.5, 0.7, 0.95])})
             else:
                 behaviours.append({"b": "exit_after", "d": rng.choice([0, 0, 0.25])})
         cases.append({"k": "ace", "task": task, "tsdb": tsdb, "inputs": inputs, "behaviours": behaviours,
@@ -134,9 +139,13 @@ def _gen_sexpr(rng, tier):
         line = sep.join(pairs)
         if rng.random() < 0.15:
             line = " " + line + " "
-        cases.append({"k": "sexpr", "line": line})
+        cases.append({"k": "sexpr", "line": line, "wf_prefix": True})
         for _ in range(3):
-            cases.append({"k": "sexpr", "line": line[:rng.randrange(0, len(line) + 1)]})
+            cases.append({"k": "sexpr", "line": line[:rng.randrange(0, len(line) + 1)], "wf_prefix": True})
+        # cuts on structural boundaries: right after a closing parenthesis
+        ends = [j + 1 for j, ch in enumerate(line) if ch == ")"]
+        for j in rng.sample(ends, min(3, len(ends))):
+            cases.append({"k": "sexpr", "line": line[:j], "wf_prefix": True})
         if rng.random() < 0.3:
             j = rng.randrange(0, len(line) + 1)
             cases.append({"k": "sexpr", "line": line[:j] + rng.choice(["[", ";", "\\", "{", ")", "(", '"', " . "]) + line[j:]})
@@ -310,6 +319,12 @@ def events(c, o):
 
 
 def oracle(c):
+    if c["k"] == "sexpr" and c.get("wf_prefix"):
+        # a truncated answer (the processor exited in the middle of it) must not make the decoder raise
+        o = _observe_sexpr(c)
+        if "raised" in o:
+            return "decoding the truncated answer line %r raises %s" % (c["line"], o["raised"])
+        return None
     if c["k"] != "ace":
         return None
     o = _run(c)
